@@ -24,23 +24,39 @@ Proof.
 Qed.
 
 (* getRangeBounds reports nothing iff the range is well formed, and then returns its bounds *)
-Theorem range_bounds_iff_lemma : forall r lo hi, lo <= hi ->
+Lemma srange_ok_b_iff lo hi r : srange_ok_b lo hi r = true <-> srange_ok lo hi r.
+Proof.
+  destruct r as [s e m]. unfold srange_ok_b, srange_ok. cbn [sr_start sr_end sr_max].
+  rewrite !andb_true_iff, orb_true_iff, !Z.leb_le. destruct e as [e|].
+  - rewrite !andb_true_iff, !Z.leb_le. tauto.
+  - intuition.
+Qed.
+
+Lemma range_bounds_errs_b r lo hi : snd (range_bounds r lo hi) = [] <-> srange_ok_b lo hi r = true.
+Proof.
+  destruct r as [s e m]. unfold range_bounds, srange_ok_b, as_int32. cbn [sr_start sr_end sr_max].
+  destruct m, e as [e|]; cbn [orb];
+    repeat match goal with
+           | |- context [Z.ltb ?a ?b] => destruct (Z.ltb_spec a b)
+           | |- context [Z.leb ?a ?b] => destruct (Z.leb_spec a b)
+           end; cbn; split; intros Hx; try reflexivity; try discriminate Hx; try lia.
+Qed.
+
+Lemma range_bounds_value r lo hi : srange_ok lo hi r -> fst (range_bounds r lo hi) = srange_bounds hi r.
+Proof.
+  destruct r as [s e m]. unfold range_bounds, srange_ok, srange_bounds, as_int32. cbn [sr_start sr_end sr_max].
+  intros [Hs Hr].
+  destruct m, e as [e|]; cbn [orb];
+    repeat match goal with
+           | |- context [Z.ltb ?a ?b] => destruct (Z.ltb_spec a b)
+           end; cbn; try reflexivity; try lia; destruct Hr as [Hr|Hr]; try discriminate Hr; try lia.
+Qed.
+
+Theorem range_bounds_iff_lemma : forall r lo hi,
   (snd (range_bounds r lo hi) = [] <-> srange_ok lo hi r) /\
   (srange_ok lo hi r -> fst (range_bounds r lo hi) = srange_bounds hi r).
 Proof.
-  intros [s e m] lo hi Hlohi. unfold range_bounds, srange_ok, srange_bounds, as_int32. cbn [sr_start sr_end sr_max].
-  destruct (Z.ltb_spec s lo), (Z.ltb_spec hi s); cbn [orb].
-  all: destruct m; cbn [fst snd app andb].
-  all: try (split; [split; [discriminate|intros [? ?]; lia]|intros [? ?]; lia]).
-  - (* max *) destruct (Z.ltb_spec hi s); [lia|]. cbn. split; [split; [intros _; split; [lia|now left]|reflexivity]|reflexivity].
-  - destruct e as [e|].
-    + destruct (Z.ltb_spec e lo), (Z.ltb_spec hi e); cbn [orb fst snd app andb].
-      all: try (split; [split; [discriminate|intros [? [?|[? ?]]]; [discriminate|lia]]|intros [? [?|[? ?]]]; [discriminate|lia]]).
-      destruct (Z.ltb_spec e s); cbn.
-      * split; [split; [discriminate|intros [? [?|[? ?]]]; [discriminate|lia]]|intros [? [?|[? ?]]]; [discriminate|lia]].
-      * split; [split; [intros _; split; [lia|right; lia]|reflexivity]|reflexivity].
-    + destruct (Z.ltb_spec s lo), (Z.ltb_spec hi s); try lia. cbn [orb fst snd app andb].
-      destruct (Z.ltb_spec s s); [lia|]. cbn. split; [split; [intros _; split; [lia|now right]|reflexivity]|reflexivity].
+  intros r lo hi. split; [|apply range_bounds_value]. rewrite range_bounds_errs_b. apply srange_ok_b_iff.
 Qed.
 
 (* ------------------------------------------------------------------------------------------ *)
